@@ -410,6 +410,38 @@ var gatedC06 = []gscen{
 		mp.GC(context.Background(), 1)
 		g.flush()
 	}, func(cfg *gen.Config) { cfg.PrimaryFileSize = 200 }},
+	{"G24-index-free-file-scan-parked-vs-flushes-rolling-the-index-files", func(g *gctx) {
+		for i := range g.u.Keys {
+			g.do(0, g.put(i, 20))
+			g.flush()
+		}
+		gt := g.gate("index.gc.free.scanned", 1)
+		done := make(chan struct{})
+		go func() { g.s.Index().VerifGC(context.Background(), true); close(done) }()
+		if !gt.WaitArrived(gT) {
+			g.notAttained("the collector did not reach the end of its free-file scan")
+			gt.Open()
+			<-done
+			return
+		}
+		// the collector holds its scan result; flushes create, fill and leave several more index files
+		f0 := g.s.Index().VerifFileNum()
+		for i := 0; i < 8; i++ {
+			g.do(1, g.put(i%len(g.u.Keys), 21+i))
+			g.flush()
+		}
+		if g.s.Index().VerifFileNum() >= f0+2 {
+			g.res.Flag("window-attained")
+		} else {
+			g.notAttained("the index did not roll over twice while the collector was parked")
+		}
+		gt.Open()
+		<-done
+		g.flush()
+		for i := range g.u.Keys {
+			g.do(2, conc.COp{Kind: "get", K: i})
+		}
+	}, func(cfg *gen.Config) { cfg.IndexFileSize = 40 }},
 	{"G11-freelist-handover-parked-vs-removals", func(g *gctx) {
 		for i := range g.u.Keys {
 			g.do(0, g.put(i, 20))
